@@ -786,7 +786,8 @@ struct UfoCase {
     nglyphs: usize, // 1..3
     kerning: u8,    // 0,1,2
     features: bool,
-    lib: u8, // 0 none, 1 skipExport (a non-export glyph), 2 glyphOrder, 3 categories + postscriptNames + a private key
+    lib: u8, // 0 none, 1 skipExport (a non-export glyph), 2 glyphOrder, 3 categories + postscriptNames + a private key,
+    // 4 / 5 public.glyphOrder followed by the ufo2ft filters key (flattenComponents / decomposeTransformedComponents) and a nested, transformed composite
     /// thorough only: a composite glyph with anchors / extra fontinfo entries
     composite: bool,
     info: bool,
@@ -801,7 +802,7 @@ fn ufo_cases(tier: Tier) -> Vec<UfoCase> {
     for nglyphs in 1..=3 {
         for kerning in 0..3u8 {
             for features in [false, true] {
-                for lib in 0..4u8 {
+                for lib in 0..6u8 {
                     for (composite, info) in extra {
                         v.push(UfoCase { nglyphs, kerning, features, lib, composite: *composite, info: *info });
                     }
@@ -874,6 +875,26 @@ fn ufo_design(c: &UfoCase) -> Design {
                 d.postscript_names.insert(g.name.clone(), format!("uni{:04X}", cps[i.min(2)]));
             }
             d.lib_extra.push(("com.example.private".into(), plist::Plist::s("x")));
+        }
+        4 | 5 => {
+            // a compile flag requested by the source itself, in a lib key that FOLLOWS a public.* key in the
+            // file (dgen writes public.* keys first), plus glyphs on which the flag changes the bytes
+            let o: Vec<String> = d.glyphs.iter().map(|g| g.name.clone()).collect();
+            d.glyph_order = Some(o);
+            let mut inner = Glyph::new("inner", &[0x61]);
+            inner.layers.insert(
+                0,
+                Layer { advance: 400.0, components: vec![Component { base: "A".into(), xform: [0.5, 0.0, 0.0, 0.5, 10.0, 20.0] }], ..Default::default() },
+            );
+            let mut outer = Glyph::new("outer", &[0x62]);
+            outer.layers.insert(0, Layer { advance: 450.0, components: vec![Component::at("inner", 30.0, 0.0), Component::at("A", 200.0, 0.0)], ..Default::default() });
+            d.glyphs.push(inner);
+            d.glyphs.push(outer);
+            let name = if c.lib == 4 { "flattenComponents" } else { "decomposeTransformedComponents" };
+            d.lib_extra.push((
+                "com.github.googlei18n.ufo2ft.filters".into(),
+                plist::Plist::Array(vec![plist::Plist::Dict(vec![("name".into(), plist::Plist::s(name)), ("pre".into(), plist::Plist::Bool(true))])]),
+            ));
         }
         _ => {}
     }
